@@ -2148,15 +2148,20 @@ class PyCdlib:
                         if self.eltorito_boot_catalog is not None and abs_file_data_extent == self.eltorito_boot_catalog.extent_location():
                             self.eltorito_boot_catalog.add_dirrecord(next_entry)
                         else:
-                            if abs_file_data_extent != 0 and abs_file_data_extent in extent_to_inode:
-                                ino = extent_to_inode[abs_file_data_extent]
+                            # Zero-length files have no data extent to be
+                            # linked by; in UDF they are hard links of each
+                            # other exactly when they share a File Entry.
+                            ino_key = abs_file_data_extent
+                            if ino_key == 0:
+                                ino_key = -abs_file_entry_extent
+                            if ino_key in extent_to_inode:
+                                ino = extent_to_inode[ino_key]
                             else:
                                 ino = inode.Inode()
                                 ino.parse(abs_file_data_extent,
                                           next_entry.get_data_length(),
                                           self._cdfp, self.logical_block_size)
-                                if abs_file_data_extent != 0:
-                                    extent_to_inode[abs_file_data_extent] = ino
+                                extent_to_inode[ino_key] = ino
                                 self.inodes.append(ino)
 
                             ino.linked_records.append((next_entry, False))
